@@ -170,6 +170,15 @@ def run(ctx):
              "sweep = the first reconcile fails at byte b of the image stream / of the cache file (error, error + failing delete, "
              "crash), two healthy reconciles follow; concurrent = a second reconcile of the revision starts mid-stream",
     ))
+    stuck = total["hits"].get("observation_healthy_reconcile_blocked_by_corrupt_entry", 0)
+    ctx.cov["observations"] = dict(
+        healthy_reconcile_blocked_by_corrupt_entry=stuck,
+        note="not a violation of C15's safety reading: a cache entry with an intact gzip header but a broken body (the process died "
+             "while writing it, or the Remove of the delete-on-failure failed) is never removed - cache.Get succeeds, parsing fails "
+             "with 'unexpected EOF', and every later reconcile of the revision fails the same way although the registry is healthy "
+             "(scenarios/C15/crash-mid-store-then-recover.json)")
+    if stuck:
+        vlib.log("observation: %d healthy reconciles installed nothing because nothing removes a corrupt cache entry (see evidence)" % stuck)
     ctx.assumptions += [
         "declared objects = the object documents the driver put into the image (identified by kind, name, content digest); "
         "established objects = what the real reconciler hands to Establisher.Establish (the real establisher is C16's subject)",
